@@ -987,9 +987,133 @@ func c05Ladder(shape, k, bits int) core.Result {
 	return core.Okay(true, out)
 }
 
+// c05Needles: membership with needles whose text is empty (the empty string, null, false) and their neighbours, in lists
+// of 0..3 elements of the needle's own kind: found exactly when an element is the same value. kind 0 strings ('' a b),
+// 1 numbers (0 1 2), 2 booleans, 3 null; code spells the list (length and elements); carrier 0 a literal list, 1 the
+// values of a literal hash, 2 a Go slice of the kind's type, 3 a []Value; the needle a literal (0) or a variable (1).
+var c05NeedleSrc = [][]string{{"''", "'a'", "'b'"}, {"0", "1", "2"}, {"false", "true"}, {"null"}}
+var c05NeedleVal = [][]stick.Value{{"", "a", "b"}, {0, 1, 2}, {false, true}, {nil}}
+
+func c05NeedleLists(kind int) [][]int {
+	n := len(c05NeedleSrc[kind])
+	out := [][]int{{}}
+	level := [][]int{{}}
+	for l := 1; l <= 3; l++ {
+		var next [][]int
+		for _, pre := range level {
+			for v := 0; v < n; v++ {
+				next = append(next, append(append([]int{}, pre...), v))
+			}
+		}
+		out = append(out, next...)
+		level = next
+	}
+	return out
+}
+
+func c05Needles(kind, needle, code, carrier, nform int) core.Result {
+	els := c05NeedleLists(kind)[code]
+	found := false
+	var lits []string
+	var vals []stick.Value
+	for _, e := range els {
+		found = found || e == needle
+		lits = append(lits, c05NeedleSrc[kind][e])
+		vals = append(vals, c05NeedleVal[kind][e])
+	}
+	ctx := map[string]stick.Value{"nd": c05NeedleVal[kind][needle]}
+	hay := "[" + strings.Join(lits, ", ") + "]"
+	switch carrier {
+	case 1:
+		var ents []string
+		for i, l := range lits {
+			ents = append(ents, "'k"+itoa(i)+"': "+l)
+		}
+		hay = "{" + strings.Join(ents, ", ") + "}"
+	case 2:
+		hay = "xs"
+		switch kind {
+		case 0:
+			xs := []string{}
+			for _, v := range vals {
+				xs = append(xs, v.(string))
+			}
+			ctx["xs"] = xs
+		case 1:
+			xs := []int{}
+			for _, v := range vals {
+				xs = append(xs, v.(int))
+			}
+			ctx["xs"] = xs
+		case 2:
+			xs := []bool{}
+			for _, v := range vals {
+				xs = append(xs, v.(bool))
+			}
+			ctx["xs"] = xs
+		default:
+			xs := []interface{}{}
+			for _, v := range vals {
+				xs = append(xs, v)
+			}
+			ctx["xs"] = xs
+		}
+	case 3:
+		hay = "xs"
+		ctx["xs"] = append([]stick.Value{}, vals...)
+	}
+	nd := c05NeedleSrc[kind][needle]
+	if nform == 1 {
+		nd = "nd"
+	}
+	src := "{{ " + nd + " in " + hay + " ? 'y' : 'n' }}{{ " + nd + " not in " + hay + " ? 'y' : 'n' }}{% if " + nd + " in " + hay + " %}Y{% else %}N{% endif %}"
+	want := "nyN"
+	if found {
+		want = "ynY"
+	}
+	var log []string
+	out, err, pan := tryExec(c05Env(&log), src, ctx)
+	if pan != "" || err != nil || out != want {
+		return core.Violation("value", fmt.Sprintf("%s (needle %#v, list %#v) renders %q (%v %s), want %q", src, ctx["nd"], vals, out, err, pan, want))
+	}
+	return core.Okay(true, out)
+}
+
 func c05Run(c core.Case) core.Result {
 	if c.Fam == "unpost" {
 		return c05UnaryPostfix(c.N[0])
+	}
+	if c.Fam == "needles" {
+		return c05Needles(c.N[0], c.N[1], c.N[2], c.N[3], c.N[4])
+	}
+	if c.Fam == "intdiv" {
+		// floor division of whole numbers of either sign carried by Go integer types (and by the results of bitwise
+		// operators): the floor of the quotient, whatever the carriers
+		a, b, ta, tb := c.N[0], c.N[1], c.N[2], c.N[3]
+		carry := func(v, t int) stick.Value {
+			switch t {
+			case 0:
+				return v
+			case 1:
+				return int64(v)
+			case 2:
+				return int8(v)
+			case 3:
+				return float64(v)
+			}
+			return int32(v)
+		}
+		want := itoa(int(math.Floor(float64(a) / float64(b))))
+		src := "{{ a // b }}|{{ (a // b) + 0 }}|{% set q = a // b %}{{ q }}"
+		if ta == 5 {
+			src = "{{ (a b-or 0) // (b b-or 0) }}|{{ ((a b-and -1) // (b b-xor 0)) + 0 }}|{% set q = (a b-or 0) // (b b-or 0) %}{{ q }}"
+		}
+		var log []string
+		out, err, pan := tryExec(c05Env(&log), src, map[string]stick.Value{"a": carry(a, ta), "b": carry(b, tb)})
+		if w := want + "|" + want + "|" + want; pan != "" || err != nil || out != w {
+			return core.Violation("value", fmt.Sprintf("%s with a = %#v, b = %#v renders %q (%v %s), want %q", src, carry(a, ta), carry(b, tb), out, err, pan, w))
+		}
+		return core.Okay(true, out)
 	}
 	if c.Fam == "corner" {
 		// rare corners with results known by construction: names that only look like keywords, membership in hashes
@@ -1151,6 +1275,29 @@ func c05Levels(tier string) []core.Level {
 			}
 			for k := 0; k < 5; k++ {
 				emit(core.Case{Fam: "corner", N: []int{k}})
+			}
+			// floor division over Go integer carriers of either sign
+			for a := -9; a <= 9; a++ {
+				for b := -4; b <= 4; b++ {
+					if a == 0 || b == 0 {
+						continue
+					}
+					for _, t := range [][2]int{{0, 0}, {1, 0}, {0, 1}, {2, 4}, {0, 3}, {3, 0}, {4, 4}, {5, 5}} {
+						emit(core.Case{Fam: "intdiv", N: []int{a, b, t[0], t[1]}})
+					}
+				}
+			}
+			// membership with needles of empty text: '' / null / false and their neighbours in lists of their own kind
+			for kind := 0; kind < 4; kind++ {
+				for code := range c05NeedleLists(kind) {
+					for needle := range c05NeedleSrc[kind] {
+						for carrier := 0; carrier < 4; carrier++ {
+							for nform := 0; nform < 2; nform++ {
+								emit(core.Case{Fam: "needles", N: []int{kind, needle, code, carrier, nform}})
+							}
+						}
+					}
+				}
 			}
 			for a := -3; a <= 7; a++ {
 				for d := 0; d <= 70; d++ {
